@@ -73,7 +73,9 @@ def autocorr_1d_float(data):
     if nxy == 0:
         return result
 
-    A = nxy * Sxy - Sx_ * Sy_
+    # covariance with missing values replaced by the mean of the respective vector:
+    # sum((Xi - mean(X)) * (Yi - mean(Y))) over valid pairs, scaled by nx * ny / N
+    A = (nx * ny * Sxy - ny * Sx * Sy_ - nx * Sy * Sx_ + nxy * Sx * Sy) / N
 
     # var(X[np.isfinite(X)]) Vairance of X excluding missing values
     var_X = nx * Sxx - Sx * Sx
@@ -155,7 +157,14 @@ def autocorr_1d_int(data, nodata):
     if nxy == 0:
         return result
 
-    A = nxy * float64(Sxy) - float64(Sx_) * float64(Sy_)
+    # covariance with missing values replaced by the mean of the respective vector:
+    # sum((Xi - mean(X)) * (Yi - mean(Y))) over valid pairs, scaled by nx * ny / N
+    A = (
+        nx * ny * float64(Sxy)
+        - ny * float64(Sx) * float64(Sy_)
+        - nx * float64(Sy) * float64(Sx_)
+        + nxy * float64(Sx) * float64(Sy)
+    ) / N
 
     # var(X[np.isfinite(X)]) Vairance of X excluding missing values
     var_X = nx * float64(Sxx) - float64(Sx) * float64(Sx)
